@@ -296,3 +296,699 @@ Proof.
     cbn [mpos flat_map]. fold (mpos m). rewrite gather_app, orient_app. reflexivity.
   - specialize (Hnl (SLost k) (or_introl eq_refl)). discriminate.
 Qed.
+
+(** * positions on the displayed segment = positions on the parent *)
+
+Lemma rev_zget {A} (l : list A) i : rev (zget l i) = zget l i.
+Proof. unfold zget. destruct (i <? 0); [reflexivity|]. destruct (nth_error _ _); reflexivity. Qed.
+
+Lemma gather_single {A} (l : list A) i : gather l [i] = zget l i.
+Proof. cbn. apply app_nil_r. Qed.
+
+Lemma gather_rev {A} (l : list A) idx : gather l (rev idx) = rev (gather l idx).
+Proof.
+  induction idx as [|i idx IH]; [reflexivity|].
+  cbn [rev]. rewrite gather_app, gather_single, (gather_cons l i idx), rev_app_distr, IH, rev_zget.
+  reflexivity.
+Qed.
+
+Lemma zget_gather_zr {A} (p : list A) lo hi i : 0 <= lo -> hi <= zlen p -> 0 <= i < hi - lo ->
+  zget (gather p (zr lo hi)) i = zget p (lo + i).
+Proof.
+  intros Hlo Hhi Hi. rewrite <- !gather_single. unfold zr.
+  change [i] with (prog i 1 1). rewrite gather_prog_prog.
+  - cbn. f_equal. f_equal. lia.
+  - intros j Hj. apply prog_In in Hj. destruct Hj as (k & Hk & ->). lia.
+  - intros j Hj. apply prog_In in Hj. destruct Hj as (k & Hk & ->). lia.
+Qed.
+
+Lemma rev_as_gather {A} (l : list A) : rev l = gather l (prog (zlen l - 1) (-1) (length l)).
+Proof.
+  rewrite <- (gather_all l) at 1. rewrite <- gather_rev, prog_rev. f_equal. f_equal. unfold zlen. lia.
+Qed.
+
+Lemma zget_rev {A} (l : list A) i : 0 <= i < zlen l -> zget (rev l) i = zget l (zlen l - 1 - i).
+Proof.
+  intros Hi. rewrite rev_as_gather. rewrite <- !gather_single.
+  change [i] with (prog i 1 1). rewrite gather_prog_prog.
+  - cbn. f_equal. f_equal. lia.
+  - intros j Hj. apply prog_In in Hj. destruct Hj as (k & Hk & ->). unfold zlen in *. lia.
+  - intros j Hj. apply prog_In in Hj. destruct Hj as (k & Hk & ->). unfold zlen in *. lia.
+Qed.
+
+Lemma flat_map_map {A B C} (f : B -> list C) (g : A -> B) l : flat_map f (map g l) = flat_map (fun x => f (g x)) l.
+Proof. induction l as [|x l IH]; [reflexivity|]. cbn. rewrite IH. reflexivity. Qed.
+
+Lemma flat_map_ext_in {A B} (f g : A -> list B) l : (forall x, In x l -> f x = g x) -> flat_map f l = flat_map g l.
+Proof.
+  induction l as [|x l IH]; intros H; [reflexivity|]. cbn. rewrite (H x (or_introl eq_refl)), IH; [reflexivity|].
+  intros y Hy. apply H. now right.
+Qed.
+
+Lemma mpos_in_range n m x : Forall (span_in n) m -> In x (mpos m) -> 0 <= x < n.
+Proof.
+  intros Hin Hx. unfold mpos in Hx. apply in_flat_map in Hx. destruct Hx as (s & Hs & Hx).
+  pose proof (proj1 (Forall_forall _ _) Hin s Hs) as Hsp. destruct s as [a b|k]; [|destruct Hx].
+  cbn in Hsp. apply zr_In in Hx. lia.
+Qed.
+
+(** the plus-orientation segment a view displays *)
+Definition dplus (v : view) (p : list Z) : list Z := gather p (zr (seg_lo v) (seg_hi v)).
+
+Lemma seg_is_gather (p : list Z) lo hi : 0 <= lo <= hi -> hi <= zlen p -> seg p lo hi = gather p (zr lo hi).
+Proof. intros. unfold seg. now apply py_slice_unit. Qed.
+
+Lemma value_contig v p : contig v -> zlen p = seq_len v ->
+  value v p = if is_reversed v then rev (dplus v p) else dplus v p.
+Proof.
+  intros Hc Hp. destruct Hc as (Hwf & Habs & Hoff).
+  rewrite (parent_segment_lemma v p Hwf Hp). unfold dplus.
+  pose proof (seg_bounds v Hwf) as Hb. rewrite seg_is_gather by lia.
+  unfold strided, is_reversed.
+  destruct (Z_lt_le_dec (step v) 0) as [H|H].
+  - replace (step v) with (-1) by lia. rewrite py_slice_rev. reflexivity.
+  - replace (step v) with 1 by lia. rewrite py_slice_full. reflexivity.
+Qed.
+
+Lemma zlen_dplus v p : WF v -> Z.abs (step v) = 1 -> zlen p = seq_len v -> zlen (dplus v p) = vlen v.
+Proof.
+  intros Hwf Habs Hp. unfold dplus. pose proof (seg_bounds v Hwf) as Hb.
+  rewrite <- seg_is_gather by lia. rewrite zlen_seg by lia. now apply parent_segment_exact.
+Qed.
+
+(** gathering plus-relative positions from the displayed segment reads the
+    parent residues at the corresponding absolute coordinates *)
+Lemma gather_dplus v p idx : WF v -> Z.abs (step v) = 1 -> zlen p = seq_len v ->
+  (forall x, In x idx -> 0 <= x < vlen v) ->
+  gather (dplus v p) idx = flat_map (residue p (offset v)) (map (fun x => x + parent_start v) idx).
+Proof.
+  intros Hwf Habs Hp Hin. rewrite flat_map_map. unfold gather. apply flat_map_ext_in.
+  intros x Hx. specialize (Hin x Hx). unfold dplus, residue.
+  pose proof (seg_bounds v Hwf) as Hb. pose proof (parent_segment_exact v Hwf Habs) as Hex.
+  rewrite zget_gather_zr by lia. f_equal. unfold seg_lo. lia.
+Qed.
+
+(** on a reversed view the nucleic-reversed map reads the same residues backwards *)
+Lemma mpos_nrev n m : Forall (span_in n) m -> no_lost m ->
+  map (fun i => n - 1 - i) (mpos (rev (map (nrev_span n) m))) = rev (mpos m).
+Proof.
+  induction m as [|[a b|k] m IH]; intros Hin Hnl; [reflexivity| |].
+  - inversion Hin as [|x y Hxy Hr]; subst. cbn [span_in] in Hxy.
+    cbn [map rev]. rewrite mpos_app, map_app, IH; [|assumption|intros s Hs; apply Hnl; now right].
+    cbn [mpos flat_map nrev_span]. fold (mpos m). rewrite app_nil_r, rev_app_distr. f_equal.
+    replace (n - b + (b - a)) with (n - a) by lia.
+    unfold zr. rewrite prog_rev.
+    rewrite (map_ext _ (fun i => (n - 1) + i * (-1))) by (intros; lia).
+    rewrite prog_map_affine. replace (n - a - (n - b)) with (b - a) by lia. f_equal; lia.
+  - specialize (Hnl (SLost k) (or_introl eq_refl)). discriminate.
+Qed.
+
+Lemma Forall_nrev n m : Forall (span_in n) m -> Forall (span_in n) (rev (map (nrev_span n) m)).
+Proof.
+  intros H. apply Forall_rev. apply Forall_map. apply Forall_forall. intros s Hs.
+  pose proof (proj1 (Forall_forall _ _) H s Hs) as Hsp. destruct s as [a b|k]; cbn in *; lia.
+Qed.
+
+Lemma no_lost_nrev n m : no_lost m -> no_lost (rev (map (nrev_span n) m)).
+Proof.
+  intros H s Hs. apply in_rev in Hs. apply in_map_iff in Hs. destruct Hs as (t & <- & Ht).
+  specialize (H t Ht). destruct t; [reflexivity|discriminate].
+Qed.
+
+Lemma gather_rev_dplus (D : list Z) n m : zlen D = n -> Forall (span_in n) m -> no_lost m ->
+  gather (rev D) (mpos (rev (map (nrev_span n) m))) = rev (gather D (mpos m)).
+Proof.
+  intros HD Hin Hnl. rewrite <- gather_rev, <- (mpos_nrev n m Hin Hnl).
+  unfold gather at 2. rewrite flat_map_map. unfold gather. apply flat_map_ext_in.
+  intros x Hx. pose proof (mpos_in_range n _ x (Forall_nrev n m Hin) Hx) as Hr.
+  rewrite zget_rev by lia. f_equal. lia.
+Qed.
+
+(** * HEADLINE: the slice of a feature on a view *)
+
+Lemma filter_flat_map {A B} (f : B -> bool) (g : A -> list B) l :
+  filter f (flat_map g l) = flat_map (fun x => filter f (g x)) l.
+Proof. induction l as [|x l IH]; [reflexivity|]. cbn. rewrite filter_app, IH. reflexivity. Qed.
+
+Lemma map_flat_map {A B C} (f : B -> C) (g : A -> list B) l :
+  map f (flat_map g l) = flat_map (fun x => map f (g x)) l.
+Proof. induction l as [|x l IH]; [reflexivity|]. cbn. rewrite map_app, IH. reflexivity. Qed.
+
+Lemma restricted_positions B n sp :
+  map (fun x => x + B) (rpositions n (shift_spans B sp)) = filter (in_seg B (B + n)) (positions sp).
+Proof.
+  unfold rpositions, shift_spans, positions. rewrite flat_map_map, map_flat_map, filter_flat_map.
+  apply flat_map_ext_in. intros [a b] _. cbn [fst snd].
+  rewrite py_range_1, filter_zr, zr_shift. f_equal; lia.
+Qed.
+
+Lemma spans_ok_proper lo sp d : spans_ok lo sp -> proper (shift_spans d sp).
+Proof.
+  revert lo. induction sp as [|[a b] r IH]; intros lo H; [constructor|].
+  cbn in H. destruct H as (H1 & H2 & H3). constructor; [cbn; lia|]. exact (IH b H3).
+Qed.
+
+Lemma cmpl_rev s : cmpl (rev s) = rev (cmpl s).
+Proof. unfold cmpl. apply map_rev. Qed.
+
+Lemma cmpl_cmpl s : cmpl (cmpl s) = s.
+Proof. unfold cmpl. apply map_comp_involutive. Qed.
+
+Lemma feature_slice_lemma fx v p f fv :
+  contig v -> 0 < vlen v -> zlen p = seq_len v -> spans_ok 0 (f_spans f) ->
+  feature_on_view fx v f = Ok fv ->
+  fv_minus fv = xorb (f_minus f) (is_reversed v) /\
+  get_slice_str v p fv = Ok (denoted p (offset v) (parent_start v) (parent_stop v) f).
+Proof.
+  intros Hc Hlen Hp Hok. unfold feature_on_view.
+  rewrite (rel_spans_contig v (f_spans f) 0 Hc Hlen (Z.le_refl 0) Hok). cbn [bind]. intros Hmf.
+  pose proof (vlen_nonneg v) as Hn.
+  destruct (make_feature_pos fx (vlen v) (is_reversed v) _ (f_minus f) fv Hn
+              (spans_ok_proper 0 _ (parent_start v) Hok) Hmf) as (Hminus & m & Hin & Hnl & Hpos & Hmap).
+  split.
+  { rewrite Hminus. destruct (f_minus f), (is_reversed v); reflexivity. }
+  destruct Hc as (Hwf & Habs & Hoff).
+  assert (Hplus : gather (dplus v p) (mpos m) =
+                  flat_map (residue p (offset v)) (filter (in_seg (parent_start v) (parent_stop v)) (positions (f_spans f)))).
+  { rewrite (gather_dplus v p (mpos m) Hwf Habs Hp) by (intros x Hx; exact (mpos_in_range _ m x Hin Hx)).
+    rewrite Hpos, restricted_positions. f_equal. f_equal. f_equal.
+    rewrite (vlen_contig v (conj Hwf (conj Habs Hoff))). lia. }
+  unfold get_slice_str, denoted. rewrite Hmap, Hminus, <- Hplus.
+  destruct (is_reversed v) eqn:Er.
+  - rewrite segments_spec; [|assumption|assumption|now apply Forall_nrev|now apply no_lost_nrev].
+    cbn [bind]. unfold orient. rewrite Er.
+    rewrite (value_contig v p (conj Hwf (conj Habs Hoff)) Hp), Er.
+    rewrite (gather_rev_dplus (dplus v p) (vlen v) m (zlen_dplus v p Hwf Habs Hp) Hin Hnl).
+    destruct (f_minus f); cbn [Bool.eqb negb].
+    + reflexivity.
+    + rewrite cmpl_rev, cmpl_cmpl, rev_involutive. reflexivity.
+  - rewrite segments_spec by assumption. cbn [bind]. unfold orient. rewrite Er.
+    rewrite (value_contig v p (conj Hwf (conj Habs Hoff)) Hp), Er.
+    destruct (f_minus f); reflexivity.
+Qed.
+
+(** * the query window *)
+
+Lemma abs_pos_contig v i (bnd : bool) : contig v -> 0 < vlen v -> 0 <= i ->
+  (if bnd then i <= vlen v else i < vlen v) ->
+  absolute_position v i bnd = Ok (if is_reversed v then parent_stop v - i else parent_start v + i).
+Proof.
+  intros Hc Hlen Hi Hb. unfold absolute_position, get_index, bind.
+  replace (vlen v =? 0) with false by lia. replace (i <? 0) with false by lia.
+  replace ((i >? 0) && bnd && (i >? vlen v)) with false by (destruct bnd; lia).
+  replace ((i >? 0) && negb bnd && (i >=? vlen v)) with false by (destruct bnd; cbn; lia).
+  replace ((i <? 0) && bnd && (Z.abs i >? vlen v + 1)) with false by lia.
+  replace ((i <? 0) && negb bnd && (Z.abs i >? vlen v)) with false by lia.
+  replace (i >=? 0) with true by lia.
+  destruct (contig_cases v Hc) as [(Es & Er & H1 & H2 & H3 & H4 & H5)|(Es & Er & H1 & H2 & H3 & H4 & H5)];
+    rewrite Er, Es; cbn [Z.gtb Z.ltb Z.compare andb]; f_equal; lia.
+Qed.
+
+Definition bound_or (o : option Z) (d : Z) : Z := match o with Some x => x | None => d end.
+
+(** a proper window [s, e) of displayed indices is turned into the absolute
+    segment holding exactly those residues *)
+Lemma query_window_contig v ws we : contig v -> 0 < vlen v ->
+  let s := bound_or ws 0 in let e := bound_or we (vlen v) in
+  0 <= s < e -> e <= vlen v ->
+  query_window v ws we =
+    Ok (if is_reversed v then (parent_stop v - e, parent_stop v - s) else (parent_start v + s, parent_start v + e)).
+Proof.
+  intros Hc Hlen s e Hse He. unfold query_window.
+  assert (E1 : py_or ws 0 = s).
+  { subst s. destruct ws as [x|]; cbn; [|reflexivity]. destruct (x =? 0) eqn:E; lia. }
+  assert (E2 : py_or we (vlen v) = e).
+  { subst e. destruct we as [x|]; cbn; [|reflexivity]. destruct (x =? 0) eqn:E; [|reflexivity]. cbn in *. lia. }
+  rewrite E1, E2. replace (s <? 0) with false by lia. replace (e <? 0) with false by lia.
+  replace (s <? e) with true by lia.
+  rewrite (abs_pos_contig v s false Hc Hlen) by lia.
+  rewrite (abs_pos_contig v e true Hc Hlen) by lia. cbn [bind].
+  destruct (contig_cases v Hc) as [(Es & Er & H1 & H2 & H3 & H4 & H5)|(Es & Er & H1 & H2 & H3 & H4 & H5)];
+    rewrite Er; destruct Hc as (_ & _ & Hoff); f_equal; f_equal; lia.
+Qed.
+
+(** * query membership *)
+
+Lemma collect_fst fx v l r : collect fx v l = Ok r -> map fst r = map fst l.
+Proof.
+  revert r. induction l as [|[i f] l IH]; intros r; cbn [collect].
+  - intros [= <-]. reflexivity.
+  - destruct (feature_on_view fx v f) as [fv|c]; [|discriminate]. cbn [bind].
+    destruct (collect fx v l) as [r'|c]; [|discriminate]. cbn [bind]. intros [= <-].
+    cbn. f_equal. now apply IH.
+Qed.
+
+Lemma index_from_In {A} (l : list A) i k x :
+  In (k, x) (index_from i l) <-> i <= k /\ nth_error l (Z.to_nat (k - i)) = Some x.
+Proof.
+  revert i. induction l as [|y l IH]; intros i; cbn [index_from].
+  - split; [intros []|]. intros [_ H]. destruct (Z.to_nat (k - i)); discriminate.
+  - cbn [In]. rewrite IH. split.
+    + intros [[= <- <-]|[H1 H2]].
+      * split; [lia|]. replace (Z.to_nat (i - i)) with O by lia. reflexivity.
+      * split; [lia|]. replace (Z.to_nat (k - i)) with (S (Z.to_nat (k - (i + 1)))) by lia. exact H2.
+    + intros [H1 H2]. destruct (Z.eq_dec k i) as [->|Hne].
+      * left. replace (Z.to_nat (i - i)) with O in H2 by lia. cbn in H2. congruence.
+      * right. split; [lia|]. replace (Z.to_nat (k - i)) with (S (Z.to_nat (k - (i + 1)))) in H2 by lia. exact H2.
+Qed.
+
+Lemma get_features_member fx v db ws we partial qs qe l :
+  query_window v ws we = Ok (qs, qe) -> get_features fx v db ws we partial = Ok l ->
+  forall k, In k (map fst l) <->
+    exists f, 0 <= k /\ nth_error db (Z.to_nat k) = Some f /\ db_match partial qs qe f = true.
+Proof.
+  intros Hw. unfold get_features. rewrite Hw. cbn [bind]. intros Hl k.
+  rewrite (collect_fst _ _ _ _ Hl). rewrite in_map_iff. split.
+  - intros ([k' f] & Hk & Hin). cbn in Hk. subst k'. apply filter_In in Hin. destruct Hin as [Hin Hm].
+    apply index_from_In in Hin. destruct Hin as [H0 Hn]. rewrite Z.sub_0_r in Hn. exists f. tauto.
+  - intros (f & H0 & Hn & Hm). exists (k, f). split; [reflexivity|]. apply filter_In. split; [|exact Hm].
+    apply index_from_In. rewrite Z.sub_0_r. tauto.
+Qed.
+
+(** the bounding box of well-formed spans is a proper interval *)
+Lemma fold_min_le x r : fold_right Z.min x r <= x.
+Proof. induction r as [|y r IH]; cbn; lia. Qed.
+Lemma fold_max_ge x r : x <= fold_right Z.max x r.
+Proof. induction r as [|y r IH]; cbn; lia. Qed.
+Lemma fold_max_ge_in x r y : In y r -> y <= fold_right Z.max x r.
+Proof. induction r as [|z r IH]; cbn; [intros []|]. intros [->|H]; [lia|]. specialize (IH H). lia. Qed.
+
+Lemma bbox_proper f : feat_ok f -> bb_lo (f_spans f) < bb_hi (f_spans f).
+Proof.
+  intros [Hne Hok]. destruct (f_spans f) as [|[a b] r]; [congruence|].
+  cbn in Hok. unfold bb_lo, bb_hi. cbn [all_coords flat_map fst snd app].
+  pose proof (fold_min_le a (b :: all_coords r)).
+  pose proof (fold_max_ge_in a (b :: all_coords r) b (or_introl eq_refl)). unfold all_coords in *. lia.
+Qed.
+
+Lemma db_match_spec partial qs qe f : feat_ok f -> qs < qe ->
+  (db_match partial qs qe f = true <->
+   if partial then overlaps (bb_lo (f_spans f)) (bb_hi (f_spans f)) qs qe
+   else inside (bb_lo (f_spans f)) (bb_hi (f_spans f)) qs qe).
+Proof.
+  intros Hf Hq. pose proof (bbox_proper f Hf). unfold db_match. destruct partial.
+  - now apply db_partial_overlap.
+  - apply db_within_inside.
+Qed.
+
+(** * any history of unit-step slices and reverse complements gives a contiguous view *)
+
+From CG3 Require Import Model.AnnotRun.
+
+Definition unit_op (o : vop) : Prop :=
+  match o with VSlice _ _ c => c = None \/ c = Some 1 | VRc => True end.
+
+Definition vinv (p : list Z) (off : Z) (v : view) : Prop :=
+  WF v /\ 0 <= offset v /\ (0 < vlen v -> Z.abs (step v) = 1 /\ zlen p = seq_len v /\ offset v = off).
+
+Lemma offset_getitem_nonneg v a b c v' : WF v -> 0 <= offset v ->
+  getitem_slice FSeqView v a b c = Ok v' -> 0 <= offset v'.
+Proof.
+  intros Hwf Hoff H. unfold getitem_slice in H.
+  assert (Hz0 : forall w, zero_slice FSeqView v = Ok w -> 0 <= offset w).
+  { intros w. rewrite zero_slice_eq. intros [= <-]. cbn. lia. }
+  assert (Hr : forall s e k w, rebuild v s e k = Ok w -> 0 <= offset w).
+  { intros s e k w Hw. destruct (seq_len_mk_view _ _ _ _ _ _ Hw) as [_ ->]. assumption. }
+  assert (Hmain : (if vlen v =? 0 then Ok v else
+    if opt_eqb a b then zero_slice FSeqView v else
+    let slice_step := match c with None => 1 | Some x => x end in
+    if slice_step >? 0 then View.get_slice FSeqView v a b slice_step
+    else if slice_step <? 0 then get_reverse_slice FSeqView v a b slice_step
+    else Err E_Value) = Ok v' -> 0 <= offset v').
+  { destruct (vlen v =? 0); [intros [= <-]; assumption|].
+    destruct (opt_eqb a b); [apply Hz0|]. cbv zeta.
+    destruct (_ >? 0).
+    - unfold View.get_slice. destruct (step v >? 0).
+      + unfold get_forward_slice_from_forward.
+        repeat match goal with |- (if ?x then zero_slice _ _ else _) = _ -> _ => destruct x; [apply Hz0|] end.
+        apply Hr.
+      + destruct (step v <? 0); [|discriminate]. unfold get_forward_slice_from_reverse.
+        repeat match goal with |- (if ?x then zero_slice _ _ else _) = _ -> _ => destruct x; [apply Hz0|] end.
+        apply Hr.
+    - destruct (_ <? 0); [|discriminate]. unfold get_reverse_slice. destruct (step v <? 0).
+      + unfold get_reverse_slice_from_reverse. cbv zeta.
+        repeat match goal with |- (if ?x then zero_slice _ _ else _) = _ -> _ => destruct x; [apply Hz0|] end.
+        apply Hr.
+      + destruct (step v >? 0); [|discriminate]. unfold get_reverse_slice_from_forward. cbv zeta.
+        repeat match goal with |- (if ?x then zero_slice _ _ else _) = _ -> _ => destruct x; [apply Hz0|] end.
+        apply Hr. }
+  destruct a; [exact (Hmain H)|]. destruct b; [exact (Hmain H)|]. destruct c; [exact (Hmain H)|].
+  cbn [copy_view] in H. destruct (seq_len_mk_view _ _ _ _ _ _ H) as [_ ->]. assumption.
+Qed.
+
+Lemma vinv_getitem p off v a b c v' : vinv p off v -> Z.abs (step_of c) = 1 ->
+  getitem_slice FSeqView v a b c = Ok v' -> vinv p off v'.
+Proof.
+  intros (Hwf & Hoff & Hpos) Hc H.
+  assert (Hc0 : c <> Some 0) by (intros ->; cbn in Hc; lia).
+  pose proof (wf_getitem_slice_lemma _ _ _ _ _ _ Hwf H) as Hwf'.
+  split; [assumption|]. split; [exact (offset_getitem_nonneg _ _ _ _ _ Hwf Hoff H)|]. intros Hlen'.
+  destruct (shape_getitem_slice _ _ _ _ _ _ Hwf H) as [Hsh Hz].
+  assert (Hlen : 0 < vlen v).
+  { pose proof (vlen_nonneg v). destruct (Z.eq_dec (vlen v) 0) as [E|E]; [specialize (Hz E); lia|lia]. }
+  destruct (Hpos Hlen) as (Habs & Hp & Ho).
+  destruct Hsh as [H0|[Hsl Hso]]; [lia|].
+  destruct (step_getitem_slice _ _ _ _ _ _ Hwf Hc0 H) as [Hse|Hst].
+  { pose proof (proj2 (wf_empty_iff v' Hwf') Hse). lia. }
+  repeat split.
+  - rewrite Hst, Z.abs_mul, Habs, Hc. reflexivity.
+  - congruence.
+  - congruence.
+Qed.
+
+Lemma apply_vop_err e o : apply_vop (Err e) o = Err e.
+Proof. reflexivity. Qed.
+
+Lemma fold_vop_err e ops : fold_left apply_vop ops (Err e) = Err e.
+Proof. induction ops as [|o ops IH]; [reflexivity|]. cbn [fold_left]. rewrite apply_vop_err. exact IH. Qed.
+
+Lemma vinv_history p off ops : forall v v', vinv p off v -> Forall unit_op ops ->
+  fold_left apply_vop ops (Ok v) = Ok v' -> vinv p off v'.
+Proof.
+  induction ops as [|o ops IH]; intros v v' Hv Hops H.
+  - cbn in H. injection H as <-. exact Hv.
+  - inversion Hops as [|x y Ho Hr]; subst. cbn [fold_left] in H.
+    destruct (apply_vop (Ok v) o) as [w|e] eqn:E; [|rewrite fold_vop_err in H; discriminate].
+    apply (IH w v'); [|assumption|assumption].
+    destruct o as [a b c|]; cbn [apply_vop bind] in E.
+    + apply (vinv_getitem p off v a b c w Hv); [|exact E]. cbn in Ho. destruct Ho as [->| ->]; reflexivity.
+    + apply (vinv_getitem p off v None None (Some (-1)) w Hv); [reflexivity|exact E].
+Qed.
+
+Lemma vinv_init p off : 0 <= off -> forall v0, mk_view (zlen p) None None None off = Ok v0 -> vinv p off v0.
+Proof.
+  intros Hoff v0 H. pose proof (wf_mk_view_lemma _ _ _ _ _ _ (zlen_nonneg p) H) as Hwf.
+  destruct (seq_len_mk_view _ _ _ _ _ _ H) as [Hn Ho].
+  split; [assumption|]. split; [lia|]. intros Hlen.
+  rewrite mk_view_none_step in H.
+  assert (H10 : 1 <> 0) by lia.
+  destruct (mk_view_step_cases _ _ _ _ _ _ (zlen_nonneg p) H10 H) as [Hs|Hse].
+  - repeat split; [rewrite Hs; reflexivity|congruence|assumption].
+  - pose proof (proj2 (wf_empty_iff v0 Hwf) Hse). lia.
+Qed.
+
+Lemma vinv_contig p off v : vinv p off v -> 0 < vlen v -> contig v /\ zlen p = seq_len v /\ offset v = off.
+Proof.
+  intros (Hwf & Hoff & Hpos) Hlen. destruct (Hpos Hlen) as (Habs & Hp & Ho).
+  split; [split; [assumption|split; assumption]|split; assumption].
+Qed.
+
+(** HEADLINE over histories *)
+Lemma history_irrelevant_lemma fx p off ops v0 v f fv :
+  0 <= off -> mk_view (zlen p) None None None off = Ok v0 ->
+  Forall unit_op ops -> fold_left apply_vop ops (Ok v0) = Ok v -> 0 < vlen v ->
+  spans_ok 0 (f_spans f) -> feature_on_view fx v f = Ok fv ->
+  fv_minus fv = xorb (f_minus f) (is_reversed v) /\ get_slice_str v p fv = Ok (denoted p off (parent_start v) (parent_stop v) f).
+Proof.
+  intros Hoff H0 Hops Hfold Hlen Hok Hfv.
+  pose proof (vinv_history p off ops v0 v (vinv_init p off Hoff v0 H0) Hops Hfold) as Hinv.
+  destruct (vinv_contig p off v Hinv Hlen) as (Hc & Hp & Ho).
+  rewrite <- Ho. exact (feature_slice_lemma fx v p f fv Hc Hlen Hp Hok Hfv).
+Qed.
+
+(** * with the boundary repair, get_features never raises on a contiguous view *)
+
+Lemma clamp_span_some fx n s e s' e' : s < e -> 0 <= n ->
+  clamp_span fx n (s, e) = Some (s', e') ->
+  s <= s' /\ e' <= e /\ s' < e' /\ s' <= n /\ (fx_bound fx = true -> 0 <= s').
+Proof.
+  intros Hse Hn. unfold clamp_span.
+  replace (Z.min s e) with s by lia. replace (Z.max s e) with e by lia.
+  destruct ((s <? 0) && (0 <? e)) eqn:C1; [intros [= <- <-]; lia|].
+  destruct ((s <? n) && (n <? e)) eqn:C2; [intros [= <- <-]; lia|].
+  destruct (fx_bound fx).
+  - destruct ((s =? e) || (s >=? n) || (e <=? 0)) eqn:C3; [discriminate|]. intros [= <- <-]. lia.
+  - destruct ((s =? e) || (s >? n) || (e <? 0)) eqn:C3; [discriminate|]. intros [= <- <-].
+    repeat split; try lia; discriminate.
+Qed.
+
+Lemma clamp_sorted fx n sp : 0 <= n -> forall lo, spans_ok lo sp -> spans_ok lo (clamp_spans fx n sp).
+Proof.
+  intros Hn. induction sp as [|[s e] r IH]; intros lo Hok; [exact I|].
+  cbn in Hok. destruct Hok as (H1 & H2 & H3). cbn [clamp_spans].
+  destruct (clamp_span fx n (s, e)) as [[s' e']|] eqn:E.
+  - destruct (clamp_span_some fx n s e s' e' H2 Hn E) as (A1 & A2 & A3 & A4 & _).
+    cbn. repeat split; try lia. apply (spans_ok_weaken e); [lia|]. exact (IH e H3).
+  - apply (spans_ok_weaken e); [lia|]. exact (IH e H3).
+Qed.
+
+Lemma spans_ok_last lo l d : spans_ok lo l -> l <> [] -> lo < snd (last l d).
+Proof.
+  revert lo. induction l as [|[a b] r IH]; intros lo Hok Hne; [congruence|].
+  cbn in Hok. destruct Hok as (H1 & H2 & H3). destruct r as [|q r'].
+  - cbn. lia.
+  - change (last ((a, b) :: q :: r') d) with (last (q :: r') d).
+    assert (Hq : q :: r' <> []) by discriminate. specialize (IH b H3 Hq). lia.
+Qed.
+
+Lemma clamp_all_in fx n sp : fx_bound fx = true -> 0 <= n -> proper sp ->
+  Forall (fun q => 0 <= fst q <= snd q /\ fst q <= n) (clamp_spans fx n sp).
+Proof.
+  intros Hfx Hn. induction sp as [|[s e] r IH]; intros Hp; [constructor|].
+  inversion Hp as [|x y Hse Hr]; subst. cbn [fst snd] in Hse. cbn [clamp_spans].
+  destruct (clamp_span fx n (s, e)) as [[s' e']|] eqn:E; [|exact (IH Hr)].
+  destruct (clamp_span_some fx n s e s' e' Hse Hn E) as (A1 & A2 & A3 & A4 & A5).
+  constructor; [cbn; specialize (A5 Hfx); lia|exact (IH Hr)].
+Qed.
+
+Lemma sfl_loop_total n l : Forall (fun q => 0 <= fst q <= snd q /\ fst q <= n) l -> exists m, sfl_loop n l = Ok m.
+Proof.
+  induction l as [|[s e] r IH]; intros H; [exists []; reflexivity|].
+  inversion H as [|x y Hq Hr]; subst. cbn [fst snd] in Hq. destruct (IH Hr) as (m & Hm).
+  cbn [sfl_loop]. replace (s >? e) with false by lia. replace (Z.min s e <? 0) with false by lia.
+  replace (s >? n) with false by lia. cbn [orb]. rewrite Hm. cbn [bind]. eexists. reflexivity.
+Qed.
+
+Lemma spans_ok_proper0 lo sp : spans_ok lo sp -> proper sp.
+Proof.
+  revert lo. induction sp as [|[a b] r IH]; intros lo H; [constructor|].
+  cbn in H. destruct H as (H1 & H2 & H3). constructor; [exact H2|]. exact (IH b H3).
+Qed.
+
+Lemma spans_ok_shift lo d sp : spans_ok lo sp -> spans_ok (lo - d) (shift_spans d sp).
+Proof.
+  revert lo. induction sp as [|[a b] r IH]; intros lo H; [exact I|].
+  cbn in H. destruct H as (H1 & H2 & H3). cbn. repeat split; try lia. exact (IH b H3).
+Qed.
+
+Lemma make_feature_total fx n rced sp minus lo : fx_bound fx = true -> 0 <= n -> sp <> [] -> spans_ok lo sp ->
+  exists fv, make_feature fx n rced sp minus = Ok fv.
+Proof.
+  intros Hfx Hn Hne Hok. unfold make_feature.
+  destruct sp as [|[a b] r]; [congruence|]. cbn [all_coords flat_map fst snd app].
+  assert (Hs : exists m, spans_from_locations n (clamp_spans fx n ((a, b) :: r)) = Ok m).
+  { unfold spans_from_locations.
+    pose proof (clamp_sorted fx n _ Hn lo Hok) as Hsorted.
+    pose proof (clamp_all_in fx n _ Hfx Hn (spans_ok_proper0 lo _ Hok)) as Hin.
+    destruct (clamp_spans fx n ((a, b) :: r)) as [|[s0 e0] l0] eqn:El; [exists []; reflexivity|].
+    assert (Hlast : s0 < snd (last ((s0, e0) :: l0) (0, 0))).
+    { destruct l0 as [|q l1].
+      - cbn in *. lia.
+      - change (last ((s0, e0) :: q :: l1) (0, 0)) with (last (q :: l1) (0, 0)).
+        cbn in Hsorted. destruct Hsorted as (S1 & S2 & S3).
+        assert (Hq : q :: l1 <> []) by discriminate.
+        pose proof (spans_ok_last e0 (q :: l1) (0, 0) S3 Hq). lia. }
+    replace (s0 >? snd (last ((s0, e0) :: l0) (0, 0))) with false by lia.
+    exact (sfl_loop_total n _ Hin). }
+  destruct Hs as (m & ->). cbn [bind]. eexists. reflexivity.
+Qed.
+
+Lemma fixed_never_raises_lemma fx v f : fx_bound fx = true -> contig v -> 0 < vlen v -> feat_ok f ->
+  exists fv, feature_on_view fx v f = Ok fv.
+Proof.
+  intros Hfx Hc Hlen [Hne Hok]. unfold feature_on_view.
+  rewrite (rel_spans_contig v (f_spans f) 0 Hc Hlen (Z.le_refl 0) Hok). cbn [bind].
+  apply (make_feature_total fx (vlen v) (is_reversed v) _ (f_minus f) (0 - parent_start v) Hfx (vlen_nonneg v)).
+  - unfold shift_spans. destruct (f_spans f); [congruence|discriminate].
+  - apply spans_ok_shift. exact Hok.
+Qed.
+
+(** * add_feature through a view (repaired variant) *)
+
+Definition nonneg_spans (l : list (Z * Z)) : Prop := Forall (fun q => 0 <= fst q /\ 0 <= snd q) l.
+
+Lemma rel_spans_contig_nn v l : contig v -> 0 < vlen v -> nonneg_spans l ->
+  rel_spans v l = Ok (shift_spans (parent_start v) l).
+Proof.
+  intros Hc Hlen. induction l as [|[a b] r IH]; intros H; [reflexivity|].
+  inversion H as [|x y [Ha Hb] Hr]; subst. cbn [fst snd] in *.
+  cbn [rel_spans]. rewrite !rel_coord_contig by assumption. cbn [bind].
+  rewrite (IH Hr). reflexivity.
+Qed.
+
+(** the absolute plus-strand coordinates of the displayed residues [a, b) of each span *)
+Definition abs_of_view (v : view) (spans : list (Z * Z)) : list (Z * Z) :=
+  if is_reversed v then rev (map (fun q => (parent_stop v - snd q, parent_stop v - fst q)) spans)
+  else map (fun q => (parent_start v + fst q, parent_start v + snd q)) spans.
+
+Definition view_spans (n : Z) (l : list (Z * Z)) : Prop := Forall (fun q => 0 <= fst q <= n /\ 0 <= snd q <= n) l.
+
+Lemma add_conv_contig v spans : contig v -> 0 < vlen v -> view_spans (vlen v) spans ->
+  add_conv v spans = Ok (map (fun q => if is_reversed v then (parent_stop v - snd q, parent_stop v - fst q)
+                                       else (parent_start v + fst q, parent_start v + snd q)) spans).
+Proof.
+  intros Hc Hlen. induction spans as [|[a b] r IH]; intros H; [reflexivity|].
+  inversion H as [|x y [Ha Hb] Hr]; subst. cbn [fst snd] in *.
+  cbn [add_conv]. rewrite !(abs_pos_contig v _ true Hc Hlen) by lia. cbn [bind].
+  rewrite (IH Hr). cbn [bind map fst snd]. destruct (is_reversed v); reflexivity.
+Qed.
+
+Lemma add_feature_coords_lemma fx v spans minus : fx_add fx = true -> contig v -> 0 < vlen v ->
+  view_spans (vlen v) spans ->
+  add_feature fx v spans minus =
+    Ok (mkF (abs_of_view v spans) (xorb minus (is_reversed v)),
+        shift_spans (parent_start v) (abs_of_view v spans), xorb minus (is_reversed v)).
+Proof.
+  intros Hfx Hc Hlen Hsp. unfold add_feature. rewrite Hfx, (add_conv_contig v spans Hc Hlen Hsp). cbn [bind].
+  assert (Hab : (if is_reversed v then rev (map (fun q => if is_reversed v then (parent_stop v - snd q, parent_stop v - fst q)
+                                       else (parent_start v + fst q, parent_start v + snd q)) spans)
+                 else map (fun q => if is_reversed v then (parent_stop v - snd q, parent_stop v - fst q)
+                                       else (parent_start v + fst q, parent_start v + snd q)) spans) = abs_of_view v spans).
+  { unfold abs_of_view. destruct (is_reversed v); reflexivity. }
+  rewrite Hab.
+  assert (Hnn : nonneg_spans (abs_of_view v spans)).
+  { pose proof (vlen_contig v Hc) as Hv. destruct Hc as (Hwf & Habs & Hoff).
+    pose proof (seg_bounds v Hwf) as Hb. unfold seg_lo, seg_hi in Hb.
+    unfold abs_of_view, nonneg_spans. destruct (is_reversed v).
+    - apply Forall_rev. apply Forall_map. apply (Forall_impl _ (P := fun q => 0 <= fst q <= vlen v /\ 0 <= snd q <= vlen v)); [|exact Hsp].
+      intros q Hq. cbn. lia.
+    - apply Forall_map. apply (Forall_impl _ (P := fun q => 0 <= fst q <= vlen v /\ 0 <= snd q <= vlen v)); [|exact Hsp].
+      intros q Hq. cbn. lia. }
+  rewrite (rel_spans_contig_nn v _ Hc Hlen Hnn). cbn [bind].
+  destruct (is_reversed v), minus; reflexivity.
+Qed.
+
+(** * witnesses: the pinned code violates the unguarded statements *)
+
+Definition w_parent : list Z := [67; 84; 65; 71; 65; 71; 84].      (* CTAGAGT *)
+Definition w_feat : feat := mkF [(0, 2); (3, 4); (6, 7)] false.
+Definition w_view : view := mkV 2 3 1 7 0.                           (* rc()[4:5].rc() *)
+
+Lemma w_view_contig : contig w_view.
+Proof. unfold contig, WF. cbn. lia. Qed.
+
+Lemma make_feature_raises_refuted_lemma :
+  exists v f, contig v /\ 0 < vlen v /\ feat_ok f /\
+    get_features pinned v [f] None None true = Err E_Value.
+Proof.
+  exists w_view, w_feat. split; [exact w_view_contig|]. split; [vm_compute; reflexivity|].
+  split; [split; [discriminate|cbn; lia]|]. vm_compute. reflexivity.
+Qed.
+
+(* new-style seq[feature] on a sequence with an annotation offset: "AATC", offset 10, feature [11,13) *)
+Definition w2_parent : list Z := [65; 65; 84; 67].
+Definition w2_view : view := mkV 0 4 1 4 10.
+Definition w2_feat : feat := mkF [(11, 13)] false.
+
+Lemma new_slice_offset_refuted_lemma :
+  exists v p f fv, contig v /\ 0 < vlen v /\ zlen p = seq_len v /\ feat_ok f /\
+    feature_on_view pinned v f = Ok fv /\
+    get_slice pinned NewSeq v p fv = Err E_Value /\
+    get_slice_str v p fv = Ok (denoted p (offset v) (parent_start v) (parent_stop v) f).
+Proof.
+  exists w2_view, w2_parent, w2_feat, (mkFV false [SSpan 1 3]).
+  split; [unfold contig, WF; cbn; lia|]. split; [vm_compute; reflexivity|]. split; [reflexivity|].
+  split; [split; [discriminate|cbn; lia]|]. repeat split; vm_compute; reflexivity.
+Qed.
+
+(* parent coordinates of a feature slice: "ACGTACGTACGG"[2:], feature [4,8) *)
+Definition w3_parent : list Z := [65; 67; 71; 84; 65; 67; 71; 84; 65; 67; 71; 71].
+Definition w3_view : view := mkV 2 12 1 12 0.
+Definition w3_feat : feat := mkF [(4, 8)] false.
+
+Lemma slice_coords_refuted_lemma :
+  exists v p f fv, contig v /\ zlen p = seq_len v /\ f_spans f = [(4, 8)] /\ f_minus f = false /\
+    parent_start v <= 4 /\ 8 <= parent_stop v /\
+    feature_on_view pinned v f = Ok fv /\
+    slice_coords pinned OldSeq v p fv = Ok (Some (2, 6, 1)) /\
+    slice_coords pinned NewSeq v p fv = Ok (Some (6, 10, 1)) /\
+    slice_coords all_fixed OldSeq v p fv = Ok (Some (4, 8, 1)) /\
+    slice_coords all_fixed NewSeq v p fv = Ok (Some (4, 8, 1)).
+Proof.
+  exists w3_view, w3_parent, w3_feat, (mkFV false [SSpan 2 6]).
+  split; [unfold contig, WF; cbn; lia|]. repeat split; try (vm_compute; reflexivity); vm_compute; discriminate.
+Qed.
+
+(* add_feature through "GGATCACA"[3:6] at view coordinates [0,1): stored as [0,1), not found on that view *)
+Definition w4_view : view := mkV 3 6 1 8 0.
+
+Lemma add_feature_refuted_lemma :
+  exists v spans minus rec sp m, contig v /\ 0 < vlen v /\ view_spans (vlen v) spans /\
+    add_feature pinned v spans minus = Ok (rec, sp, m) /\
+    f_spans rec <> abs_of_view v spans /\
+    get_features pinned v [rec] None None true = Ok [].
+Proof.
+  exists w4_view, [(0, 1)], false, (mkF [(0, 1)] false), [(0, 1)], false.
+  split; [unfold contig, WF; cbn; lia|]. split; [vm_compute; reflexivity|].
+  split; [repeat constructor; cbn; lia|]. split; [reflexivity|]. split; [vm_compute; discriminate|].
+  vm_compute. reflexivity.
+Qed.
+
+(** * query membership on a contiguous view, in one statement *)
+
+Definition abs_window (v : view) (s e : Z) : Z * Z :=
+  if is_reversed v then (parent_stop v - e, parent_stop v - s) else (parent_start v + s, parent_start v + e).
+
+Definition box_matches (partial : bool) (w : Z * Z) (f : feat) : Prop :=
+  if partial then overlaps (bb_lo (f_spans f)) (bb_hi (f_spans f)) (fst w) (snd w)
+  else inside (bb_lo (f_spans f)) (bb_hi (f_spans f)) (fst w) (snd w).
+
+Lemma query_membership_lemma fx v db ws we partial l : contig v -> 0 < vlen v ->
+  let s := bound_or ws 0 in let e := bound_or we (vlen v) in
+  0 <= s < e -> e <= vlen v -> Forall feat_ok db ->
+  get_features fx v db ws we partial = Ok l ->
+  forall k, In k (map fst l) <->
+    exists f, 0 <= k /\ nth_error db (Z.to_nat k) = Some f /\ box_matches partial (abs_window v s e) f.
+Proof.
+  intros Hc Hlen s e Hse He Hdb Hl k.
+  pose proof (query_window_contig v ws we Hc Hlen Hse He) as Hw. fold s e in Hw.
+  assert (Hw' : query_window v ws we = Ok (fst (abs_window v s e), snd (abs_window v s e))).
+  { rewrite Hw. unfold abs_window. destruct (is_reversed v); reflexivity. }
+  rewrite (get_features_member fx v db ws we partial _ _ l Hw' Hl k).
+  assert (Hq : fst (abs_window v s e) < snd (abs_window v s e)).
+  { unfold abs_window. destruct (is_reversed v); cbn; lia. }
+  split; intros (f & H0 & Hn & Hm); exists f; (split; [assumption|]); (split; [assumption|]).
+  - assert (Hf : feat_ok f) by (apply (proj1 (Forall_forall _ _) Hdb); eapply nth_error_In; eassumption).
+    apply (db_match_spec partial _ _ f Hf Hq) in Hm. unfold box_matches. destruct partial; exact Hm.
+  - assert (Hf : feat_ok f) by (apply (proj1 (Forall_forall _ _) Hdb); eapply nth_error_In; eassumption).
+    apply (db_match_spec partial _ _ f Hf Hq). unfold box_matches in Hm. destruct partial; exact Hm.
+Qed.
+
+(** old-style (and repaired new-style) get_slice is the plain reading of the map *)
+Lemma get_slice_old_lemma fx v p fv : get_slice fx OldSeq v p fv = get_slice_str v p fv.
+Proof. reflexivity. Qed.
+
+Lemma get_slice_new_fixed_lemma fx v p fv : fx_mapped fx = true -> get_slice fx NewSeq v p fv = get_slice_str v p fv.
+Proof.
+  intros H. unfold get_slice, get_slice_err. rewrite H.
+  destruct (without_gaps (fv_map fv)) as [|[a b|k] [|x r]]; reflexivity.
+Qed.
+
+(** * non-vacuity: the hypotheses of the headline theorems are met by concrete, non-trivial instances *)
+
+(* "ACGTACGTACGG"[2:], '+' feature [4,8): slice "ACGT" *)
+Example headline_instance_fwd :
+  contig w3_view /\ 0 < vlen w3_view /\ zlen w3_parent = seq_len w3_view /\ spans_ok 0 (f_spans w3_feat) /\
+  exists fv, feature_on_view pinned w3_view w3_feat = Ok fv /\
+    denoted w3_parent (offset w3_view) (parent_start w3_view) (parent_stop w3_view) w3_feat = [65; 67; 71; 84].
+Proof.
+  split; [unfold contig, WF; cbn; lia|]. split; [vm_compute; reflexivity|]. split; [reflexivity|].
+  split; [cbn; lia|]. eexists. split; vm_compute; reflexivity.
+Qed.
+
+(* a three-span minus-strand feature seen from rc()[1:6] of "CTAGAGT" with annotation offset 5 *)
+Definition w5_view : view := mkV (-2) (-7) (-1) 7 5.
+Definition w5_feat : feat := mkF [(5, 7); (8, 9); (10, 12)] true.
+Definition w5_ops : list vop := [VRc; VSlice (Some 1) (Some 6) None].
+
+Example headline_instance_rev :
+  fold_left apply_vop w5_ops (mk_view 7 None None None 5) = Ok w5_view /\ Forall unit_op w5_ops /\
+  contig w5_view /\ 0 < vlen w5_view /\ zlen w_parent = seq_len w5_view /\ feat_ok w5_feat /\
+  exists fv, feature_on_view pinned w5_view w5_feat = Ok fv /\ fv_minus fv = false /\
+    get_slice pinned OldSeq w5_view w_parent fv = Ok [67; 67; 65] /\
+    denoted w_parent 5 (parent_start w5_view) (parent_stop w5_view) w5_feat = [67; 67; 65].
+Proof.
+  split; [vm_compute; reflexivity|]. split; [repeat constructor; cbn; auto|].
+  split; [unfold contig, WF; cbn; lia|]. split; [vm_compute; reflexivity|]. split; [reflexivity|].
+  split; [split; [discriminate|cbn; lia]|]. eexists. repeat split; vm_compute; reflexivity.
+Qed.
